@@ -597,6 +597,7 @@ func runClientWorld(rc *RunCtx) *Outcome {
 	o.Steps = res.Steps
 	o.SimTime = res.SimTime
 	o.LogHash = res.Hash
+	o.Sched = res.SchedHash
 	if rc.KeepLog {
 		o.Log = append(o.Log, w.describe()...)
 		for _, e := range w.sim.Events() {
